@@ -14,7 +14,7 @@
 (*    on the real code by the Go harness, whose trace is validated by       *)
 (*    TraceGrants.tla.                                                      *)
 (***************************************************************************)
-EXTENDS Grants, Json
+EXTENDS Grants, Json, OpsLib
 
 CONSTANTS Family,     \* which alphabet: "C01", "C02", ...
           Cfgs,       \* set of configurations (records) explored from Init
@@ -41,31 +41,12 @@ CfgsIntrospect == {[BaseCfg EXCEPT !.at = a, !.no_rt_intro = n] : a \in {"hmac",
 CfgsDevice == {[BaseCfg EXCEPT !.store = s, !.rscopes = rs] : s \in {"mem", "contract"}, rs \in {<<>>, <<"offline">>}}
 CfgsPar == {[BaseCfg EXCEPT !.par_enf = e] : e \in BOOLEAN}
 
-(* ---- operation builders (field names = JSON names of the Go harness) ---- *)
-Authz(c, rt, sc, gr, au, rd, pk) ==
-  [op |-> "authorize", client |-> c, rtype |-> rt, scopes |-> sc, grant |-> gr, aud |-> au, redir |-> rd, pkce |-> pk]
-Redeem(c, a, k, rd, v, xs, xa) ==
-  [op |-> "redeem", client |-> c, auth |-> a, code |-> k, redir |-> rd, ver |-> v, xscope |-> xs, xaud |-> xa]
-Refresh(c, a, j, xs, xa) == [op |-> "refresh", client |-> c, auth |-> a, tok |-> j, xscope |-> xs, xaud |-> xa]
-Revoke(c, a, kind, t, h) == [op |-> "revoke", client |-> c, auth |-> a, kind |-> kind, tok |-> t, hint |-> h]
-Introspect(c, caller, n, kind, t, h, need) ==
-  [op |-> "introspect", client |-> c, caller |-> caller, n |-> n, kind |-> kind, tok |-> t, hint |-> h, need |-> need]
-CCreds(c, a, sc, au) == [op |-> "ccreds", client |-> c, auth |-> a, scopes |-> sc, aud |-> au]
-Password(c, a, u, sc, au) == [op |-> "password", client |-> c, auth |-> a, user |-> u, scopes |-> sc, aud |-> au]
-DevStart(c, a, sc, gr, au) == [op |-> "devstart", client |-> c, auth |-> a, scopes |-> sc, grant |-> gr, aud |-> au]
-DevDecide(d, dec) == [op |-> "devdecide", dev |-> d, dec |-> dec]
-DevPoll(c, a, d) == [op |-> "devpoll", client |-> c, auth |-> a, dev |-> d]
-Push(c, a, rt, sc, au, rd, f, u) ==
-  [op |-> "push", client |-> c, auth |-> a, rtype |-> rt, scopes |-> sc, aud |-> au, redir |-> rd, field |-> f, par |-> u]
-UsePar(c, kind, u, f) == [op |-> "usepar", client |-> c, kind |-> kind, par |-> u, field |-> f]
-Tick == [op |-> "tick", n |-> 1]
-ClientChange(c, f, v) == [op |-> "clientchange", client |-> c, field |-> f, val |-> v]
-
-Codes == DOMAIN st.S.code
-ATs == DOMAIN st.S.at
-RTs == DOMAIN st.S.rt
-Devs == DOMAIN st.S.dev
-Pars == DOMAIN st.S.par
+\* only credentials that were handed to somebody can be presented
+Codes == {x \in DOMAIN st.S.code : st.S.code[x].dl}
+ATs == {x \in DOMAIN st.S.at : st.S.at[x].dl}
+RTs == {x \in DOMAIN st.S.rt : st.S.rt[x].dl}
+Devs == {x \in DOMAIN st.S.dev : st.S.dev[x].dl}
+Pars == {x \in DOMAIN st.S.par : st.S.par[x].dl}
 Owner(k) == st.S.code[k].client
 Other(c) == IF c = "A" THEN "B" ELSE "A"
 CanAuthz == Count(st.S.code) < MaxCodes /\ Count(st.S.at) < MaxAT
